@@ -330,7 +330,7 @@ PROPS['C04'] = {
         'next_solution_print_list writes one line per argument, in argument order and each once - a variable shown as the end of its binding chain, a list as the text format_slist gives for it, preceded by ",\\n" after the first argument - and nothing when there is no argument (#lines_in_order, #lines_inv, #one_event_per_line); '
         'a print / print_list / nl node writes only on its first request and never again afterwards; print and nl write at most one text per request (#once, #one_output on next_solution_bip; done nodes write nothing: C05)',
         'NOT PROVED, bounded only: "exactly what the reference depth-first search writes ... in execution order" - the output trace of a whole search is a whole-history statement (as C01); c04_prog compares it with a reference interpreter on random programs, labelled bounded',
-        'format_slist (the text of one list) is PROVED since 8.49 on its verbatim body (unit slist): when the walk through the list ends, the text is the elements of the list - continuing through bound tail variables - each shown with its bound value (Display uninterpreted), separated by ", "; an element without a value shows nothing (#list_text, #walk_inv). In unit print the callee is an uninterpreted function of the list and the bindings (T10), so the two proofs compose through that assumption',
+        'format_slist (the text of one list) is PROVED since 8.49 on its verbatim body (unit slist): when the walk through the list ends, the text is the elements of the list - continuing through bound tail variables - each shown with its bound value (Display uninterpreted), separated by ", "; an element without a value shows nothing (#list_text, #walk_inv). fmt_slist, the text print_list speaks of, is DEFINED as that text (spec/slist_text.rs; uninterpreted only for a list that is its own tail), and format_slist is proved to return it (#text_is_fmt_slist)',
         'next_solution_print and next_solution_print_list require acyclic bindings: PROVED at the solver\'s call sites in unit solver_wf (C08, 8.37); Display of a term is uninterpreted (disp)',
         'observation: a cut inside a parenthesised group also stops backtracking into the goals to its right inside the group once control has left the group (documented: "disabled on the cut and all its ancestors"); '
         'the textbook search would retry them, so their output can differ - the trace oracle therefore generates programs without cut',
